@@ -1722,7 +1722,9 @@ class XmlParser(Parser):
                 # Might be substtituted by any kind of substitution later if required.
                 attributes_dict = {"_attributes": {k: str(v) for k, v in nodes[index].attrib.items() if str(v) != ""}}
 
-                if parsed_dict[key] is None:
+                if not attributes_dict["_attributes"]:
+                    pass  # all attributes are empty strings: nothing to save
+                elif parsed_dict[key] is None:
                     parsed_dict[key] = attributes_dict
                 else:
                     parsed_dict[key].update(attributes_dict)
